@@ -77,6 +77,7 @@ class Slots:
         # ---- is_sequential switches
         self.seq_switches = []        # (body name, call bb, switch bb, true target, false target)
         self.seq_kernels = []
+        self.seq_inline = []          # bodies whose sequential-only route does the sequential work inline
         for b in F.fn_bodies():
             for bb, t in b.calls():
                 if sg(callee_of(t)) == IS_SEQ:
@@ -106,8 +107,14 @@ class Slots:
                         tx = b.blocks[x]['term']
                         if tx['t'] == 'call' and tx.get('local') and callee_of(tx) in F.bodies:
                             k = callee_of(tx)
-                            if k not in self.seq_kernels and not F.bodies[k].d.get('impl_trait'):
+                            # a sequential kernel is where the concurrent iterator is turned back into its sequential iterator;
+                            # accessors on the sequential route (`destruct`) are not kernels
+                            if k not in self.seq_kernels and not F.bodies[k].d.get('impl_trait') and self._reaches_seq_iter(k):
                                 self.seq_kernels.append(k)
+                    # the sequential work may also be written inline on the sequential-only route of this body
+                    if any(b.blocks[x]['term']['t'] == 'call' and is_coniter_call(b.blocks[x]['term'], {'into_seq_iter'}) for x in true_only):
+                        if b.name not in self.seq_inline:
+                            self.seq_inline.append(b.name)
         # ---- Par methods
         self.par_impl_types = sorted({b.d['impl_self'] for b in F.bodies.values() if b.d.get('impl_trait') == PAR_TRAIT})
         self.par_methods = {}     # name -> body (impl methods and provided methods)
@@ -152,6 +159,19 @@ class Slots:
                 self.sources.append(b.name)
 
     # ------------------------------------------------------------------
+    def _reaches_seq_iter(self, name, depth=0):
+        F = self.ctx.facts
+        b = F.bodies.get(name)
+        if b is None or depth > 2:
+            return False
+        for bd in [b] + F.closures_in(b):
+            for _, t in bd.calls():
+                if is_coniter_call(t, {'into_seq_iter'}):
+                    return True
+                if t.get('local') and callee_of(t) in F.bodies and depth < 2 and self._reaches_seq_iter(callee_of(t), depth + 1):
+                    return True
+        return False
+
     def expand_dispatchers(self, ctx, fns, depth=0):
         """a task that only dispatches (`if chunk_size == 1 { one_by_one(iter, ..) } else { in_chunks(iter, .., c) }`) is replaced
         by the functions it dispatches to: those hold the pull loops the task rules are about.  A dispatcher is loop-free, makes no
